@@ -182,6 +182,9 @@ def run_model(name, constants=None, invariants=None, workers=None, timeout=3000,
         ms = re.search(r"The number of states generated: (\d+)", text)
         if ms:
             m = re.match(r"(\d+) (\d+)", "%s %s" % (ms.group(1), ms.group(1)))
+    if not m and re.search(r"Invariant \S+ is violated by the initial state", text):
+        # refuted while the initial states were still being computed: TLC prints no state count
+        m = re.match(r"(\d+) (\d+)", "1 1")
     if not m:
         raise ToolError("TLC model %s produced no state count:\n%s" % (name, text[-3000:]))
     objs = parse_json_prints(text)
